@@ -10,6 +10,31 @@ TRUST = ("trusts the Go type checker, go/cfg, go/ssa, the documented semantics o
 
 # property id -> (claimed text, technique, design_ref)   (only built properties appear here)
 CLAIMS = {
+    "C08": (
+        "Decides: every success exit of Envelope.Validate/ValidateWithContext passes through and heeds Digest.Equals(header digest, "
+        "freshly computed digest); Equals compares every field of Digest; the digest is SHA-256 over c14n.CanonicalJSON(json.Marshal("
+        "whole document object)) and is stored in the header after the document was calculated; no registered document type hides a "
+        "data field from serialisation (json:\"-\" only on function-typed fields and option structs; migration unmarshallers decode every "
+        "field and do not shadow real members). Not decided: sensitivity of SHA-256/canonical bytes to each edit (value-level).",
+        "static analysis: must-pass-through + heeded-error dataflow on go/cfg, def-use chain of the hashed bytes, field-comparison coverage, type-graph closure of registered schema types",
+        "§4 C08"),
+    "C10": (
+        "Decides the guards the lifecycle rests on: Sign appends only after a successful key.Sign, validates after the append and "
+        "clears the signature list on every failing path after it; Signature.UnmarshalJSON reports success only where a successfully "
+        "parsed JWS was stored; the signed flag is derived exactly from a non-empty signature list and handed to struct validation; "
+        "header stamps must be empty unless signed and are duplicate-checked; all 4 document types with code+uuid+regime require the "
+        "code when signed (sibling agreement). Not decided: outcomes over operation histories (model checking is another family).",
+        "static analysis: branch-fact and must-pass dataflow on go/cfg, validation-rule table parsing, sibling cross-check",
+        "§4 C10"),
+    "C12": (
+        "Decides: the acceptance predicate of RateDef.Value by finite abstract evaluation over all orderings of (start date, document "
+        "date) and nil/invalid axes — accept iff undated or start ≤ date, first accepted value returned; the order validator's truth "
+        "table; exhaustively, that all 68 rate tables folded from source and all data/regimes/*.json tables are strictly descending per "
+        "qualification with undated values last; that the combo takes percent and surcharge from the one selected value, errors when none, "
+        "clears both when exempt; that the tax date is value date else issue date; and that code tables equal the published tables value "
+        "for value. Not decided: whether the percentages match national law.",
+        "static analysis: finite abstract evaluation of the comparison predicate, constant folding of definition literals, table comparison with data files, def-use",
+        "§4 C12"),
     "C09": (
         "Decides, for every path of every function that can say 'verified': only Envelope.verifySignature touches JWS "
         "verification outside package dsig (plus callers that heed it); success there is control-dependent on "
